@@ -1023,14 +1023,14 @@ one-sided and big-M gadgets are emitted — and the step keeps the invariants. -
 theorem piecewise_linearize_succeeds {bm : BoundsMap (Ext K)} {e : Exp (Ext K)} {q : Req} (h : PW bm e q)
     (s : St (Ext K)) (hn : NamesOK s) (hb : BAgree bm s) :
     ∃ c s', linExp e q s = .ok (c, s') ∧ Grow s s' ∧ NamesOK s' ∧ BAgree bm s' := by
-  obtain ⟨c, s', h1, g⟩ := linExp_PW h s hn hb
+  obtain ⟨c, s', h1, g, _, _⟩ := linExp_PW h s hn hb
   exact ⟨c, s', h1, g, hn.grow g, hb.grow g⟩
 
 /-- non-vacuity: `|x|` with `x ∈ [−3, 3]` at requirement `exact` needs the big-M gadget and is in the fragment; a
 state with the single user variable `x` satisfies the invariants, so the lowering succeeds. -/
 example : ∃ (bm : BoundsMap (Ext K)) (e : Exp (Ext K)) (s : St (Ext K)) (c : Ctx (Ext K)) (s' : St (Ext K)),
     PW bm e .exact ∧ NamesOK s ∧ BAgree bm s ∧ linExp e .exact s = .ok (c, s') := by
-  obtain ⟨c, s', h, _⟩ := linExp_PW exPW_pw exPWState (exPW_names (K := K)) exPW_agree
+  obtain ⟨c, s', h, _, _, _⟩ := linExp_PW exPW_pw exPWState (exPW_names (K := K)) exPW_agree
   exact ⟨_, _, _, c, s', exPW_pw, exPW_names, exPW_agree, h⟩
 
 end Success
